@@ -314,7 +314,14 @@ func cmdCheck(args []string) int {
 	// vacuity: entry and every return of each function must be reachable under its assumptions
 	var allCovers []*Cover
 	for _, fr := range run.results {
-		allCovers = append(allCovers, fr.Covers...)
+		for _, c := range fr.Covers {
+			// a proved site clause cannot cut off the states after it: its cover is only needed when the
+			// clause failed (known finding or violation)
+			if c.before != "" && (c.oblig == nil || c.oblig.Result == nil || c.oblig.Result.Status == "unsat") {
+				continue
+			}
+			allCovers = append(allCovers, c)
+		}
 	}
 	coverTimeout := 3
 	if *tier == "thorough" {
@@ -375,9 +382,16 @@ func report(run *checkRun, wall float64, verbose, keep bool, engineErr bool) int
 	for _, f := range findings {
 		if f.Kind == "finding" && f.Property == prop && f.Obligation != "" {
 			known[f.Obligation] = f
+			// a finding at a call site is the clause at ONE call site of the function: the source text
+			// of the call (after '@') may change with a harmless edit (renamed argument), so the finding
+			// is also matched by function and clause, for the first call site that fails only
+			if lockName(f.Obligation) != f.Obligation {
+				known[lockName(f.Obligation)] = f
+			}
 		}
 	}
 	lock := loadLock()
+	knownSite := map[string]string{}
 	discharged, violations, knownHits := 0, 0, 0
 	var samples []map[string]any
 	var lines []string
@@ -400,7 +414,22 @@ func report(run *checkRun, wall float64, verbose, keep bool, engineErr bool) int
 			discharged++
 			continue
 		}
-		if f, ok := known[baseName(o.Name)]; ok {
+		f, ok := known[baseName(o.Name)]
+		if ok && lockName(o.Name) != baseName(o.Name) {
+			if _, seen := knownSite[lockName(o.Name)]; !seen {
+				knownSite[lockName(o.Name)] = baseName(o.Name)
+			}
+		}
+		if !ok {
+			if kf, ok2 := known[lockName(o.Name)]; ok2 && lockName(o.Name) != baseName(o.Name) {
+				site := baseName(o.Name)
+				if first, seen := knownSite[lockName(o.Name)]; !seen || first == site {
+					knownSite[lockName(o.Name)] = site
+					f, ok = kf, true
+				}
+			}
+		}
+		if ok {
 			if !seenKnown[baseName(o.Name)] {
 				lines = append(lines, fmt.Sprintf("KNOWN-FINDING: property=%s %s [%s] %s", prop, baseName(o.Name), r.Status, f.Text))
 				seenKnown[baseName(o.Name)] = true
@@ -867,6 +896,12 @@ func solveCovers(cs []*Cover, timeoutS int) int {
 			defer func() { <-sem }()
 			r := Solve(c.smt.Query(c.prefix, c.pc), timeoutS, false, c.Name)
 			c.Result = &r
+			if c.before != "" && r.Status == "unsat" {
+				// unreachable after the clause: vacuity only if the call site itself was reachable
+				// (the query up to the assumption of the clause)
+				rb := Solve(c.smt.Query(c.prefix-1, c.before), timeoutS, false, c.Name+".before")
+				c.Poison = rb.Status == "sat"
+			}
 			if r.Status == "unsat" && os.Getenv("GOCV_DUMP_COVER") != "" {
 				os.WriteFile(filepath.Join(verifDir, ".work", sanitize(c.Name)+".cover.smt2"), []byte(c.smt.Query(c.prefix, c.pc)), 0o644)
 			}
@@ -897,6 +932,12 @@ func solveCovers(cs []*Cover, timeoutS int) int {
 		}
 	}
 	vac := 0
+	for _, c := range cs {
+		if c.Poison {
+			fmt.Printf("VACUOUS %s: the clause is false in every state that reaches this call; assumed after it, it would make the rest of the function hold vacuously\n", c.Name)
+			vac++
+		}
+	}
 	for _, fc := range byFn {
 		if fc.deadEntry || (fc.returns > 0 && fc.deadReturns == fc.returns) {
 			vac++
